@@ -29,9 +29,10 @@ RULE = ("case = invalid-request class (%d classes covering every item of the sta
         "arguments x, for Weaver entry points, a random valid history of 0..6 operations. non-trivial: Weaver classes "
         "whose pre-state differs from a freshly constructed object, and every function-level rejection; distinct by "
         "case index."
-        " Also: fuzzed requests after histories with reshaping (any call ending in ValueError must leave the state untouched), exact zeros that are not samples as missing slicing values, degenerate fixed-point designations next to unknown rule names, and a twin object that never saw the rejected request (later behaviour must be identical)." % len(CLASSES))
+        " Also: fuzzed requests after histories with reshaping (any call ending in ValueError must leave the state untouched), exact zeros that are not samples as missing slicing values, degenerate fixed-point designations next to unknown rule names, and a twin object that never saw the rejected request (later behaviour must be identical)."
+        " Round-4 classes: unknown strategy names together with an empty or out-of-range look-up / an emptied reference; strategy positionally.") % len(CLASSES)
 REQUIRED_MONITORS = ["c20:" + c for c in CLASSES] + ["c20:state_snapshot", "c20:fuzzed_request", "c20:fuzzed_rejected", "c20:twin_continuation"]
-ASSUMPTIONS = ["out-of-range fixed-point INDICES and empty query lists are not exercised (outside the statement)"]
+ASSUMPTIONS = ["out-of-range fixed-point INDICES are not exercised (outside the statement); empty look-ups only together with an unknown name"]
 NSHARDS = 16
 BOGUS = ["bogus", "", "Trapezoid", "rect", "nearest", "LINEAR", "quadratic", None, 3]
 
